@@ -648,6 +648,64 @@ def early_start_worker(item):
     return acc
 
 
+def loss_in_callback_worker(item):
+    """the CA loses its address to a lower NAME while the job thread is inside the application's DM1 data callback (a slow
+    callback): no DM1 leaves from the lost address afterwards, the job thread survives, and an arbitrary-address-capable CA goes on
+    sending its DM1 every cycle from the address it moves to"""
+    _k, dll, seed = item[:3]
+    prop = item[3] if len(item) > 3 else 'C16'       # C13 judges the same executions for frames from the lost address
+    acc = Acc()
+    for aac in (0, 1):
+        for slow in (0.002, 0.01):
+            sc = {'part': 'address lost during the DM1 data callback', 'dll': dll, 'aac': aac, 'callback_s': slow}
+            w = rt.World()
+            rt.activate(w)
+            try:
+                bus = Bus(w, base_lat=2e-4)
+                A = Stack(bus, 'A', dll=dll)
+                B = Stack(bus, 'B', dll=dll)
+                nm = j1939.Name(arbitrary_address_capable=aac, identity_number=0x55, manufacturer_code=0x123)
+                ca = j1939.ControllerApplication(nm, 0x90, bypass_address_claim=True)
+                A.ecu.add_ca(controller_application=ca)
+                ca.start(claim_delay=0.0)
+                cb = B.add_ca(0x20, name_value=0x999)
+                got = []
+                rx = j1939.Dm1(cb)
+                rx.subscribe(lambda sa, lamps, dtcs, ts: got.append((w.now, sa, len(dtcs))))
+                w.run_for(0.005)
+                st = {'n': 0, 'lost_at': None}
+                tx = j1939.Dm1(ca)
+
+                def src():
+                    st['n'] += 1
+                    if st['n'] == 2:
+                        # a lower NAME claims 0x90 while this callback is running
+                        w.at(w.now + slow / 3, lambda: bus.ghost_node().send((6 << 26) | (0xEE << 16) | (0xFF << 8) | 0x90, bytes([1, 0, 0, 0, 0, 0, 0, 0])))
+                        st['lost_at'] = w.now + slow / 3 + 2e-4
+                        w.sleep(slow)
+                    return ({'pl': 1, 'awl': 0, 'rsl': 0, 'mil': 0}, [{'spn': 100, 'fmi': 3, 'oc': 1}])
+                tx.start_send(src, 0.1)
+                w.run_for(1.3)
+                probs = []
+                late = [f for f in bus.log if f.src == 'A' and f.sa == 0x90 and f.pf != 0xEE and st['lost_at'] is not None and f.t > st['lost_at'] + 1e-6]
+                if prop == 'C13':
+                    if late:
+                        probs.append("a DM1 left the stack from address 144 after the CA had lost it")
+                elif A.job.exc is not None:
+                    probs.append("job thread dead (%s): the CA lost its address while the DM1 was being prepared" % A.job.exc_type)
+                if prop == 'C16' and aac and not probs and not late:
+                    n_new = len([g for g in got if g[1] == 0x91])
+                    if n_new < 5:
+                        probs.append("%d DM1 received from the new address 145 in the second after the move, cycle 0.1 s" % n_new)
+                acc.case(repr(sc), outcome=len(probs))
+                if probs:
+                    acc.violation(csig(probs[0]), sc, None, probs[:3])
+            finally:
+                w.shutdown()
+    acc.sample({'part': 'address lost during the DM1 data callback', 'dll': dll})
+    return acc
+
+
 def dynsub_worker(item):
     """DM1 subscribers that unsubscribe (themselves / a neighbour) from inside the callback: every other subscriber still
     receives that DM1, the next cycle reaches exactly those still registered"""
@@ -723,6 +781,8 @@ def worker(item):
         return dynsub_worker(item)
     if item[0] == 'early_start':
         return early_start_worker(item)
+    if item[0] == 'loss_in_cb':
+        return loss_in_callback_worker(item)
     if item[0] == 'race':
         return race_worker(item)
     if item[0] == 'race_rx':
@@ -772,6 +832,7 @@ def run(tier, seed):
             items.append(('exchange', dll, n, seed))
         items.append(('dynsub', dll, seed))
         items.append(('early_start', dll, seed))
+        items.append(('loss_in_cb', dll, seed))
     for n in ((1, 2, 5) if quick else (1, 2, 3, 4, 5, 8)):
         items.append(('race', 'j1939-21', n, seed))
         items.append(('race_rx', 'j1939-21', n, seed))
@@ -799,6 +860,10 @@ def replay(rec):
         a.violations = [v for v in a0.violations if v['scenario'] == sc]
     elif part == 'receive thread pre-empted in the DM1 code':
         a0 = race_rx_worker(('race_rx', sc['dll'], sc['dtc_count'], rec.get('seed', 0)))
+        a = Acc()
+        a.violations = [v for v in a0.violations if v['scenario'] == sc]
+    elif part == 'address lost during the DM1 data callback':
+        a0 = loss_in_callback_worker(('loss_in_cb', sc['dll'], rec.get('seed', 0)))
         a = Acc()
         a.violations = [v for v in a0.violations if v['scenario'] == sc]
     elif part == 'start_send before the address is claimed':
